@@ -132,6 +132,15 @@ CHECKS["C16"] = dict(
          "pongs arrive in ping order.",
     ref="6/C16")
 
+CHECKS["C15"] = dict(
+    text="The real Outbound/PullToPush and Inbound flow-control code under bounded symbolic schedules of register/unregister (push and pull), subchannel close, transport "
+         "pause/resume, connection loss/replacement and producer turns, with a solver-chosen flag per producer turn (writes) and per send_record (the transport pauses "
+         "re-entrantly from inside the call): _check_invariants holds, every registered producer is paused while the connection is paused or absent, none is left paused "
+         "after a drain, interrupted resumes give every producer a turn before any second turn (2..4 producers), inbound reading is paused iff some subchannel asked for "
+         "it, also right after a replacement connection is installed.",
+    note="connection, transport and cooperator are recorders; schedules of 5/6 steps over <= 3 producers from the initial state; unit level (no Manager/Connector).",
+    ref="6/C15")
+
 NOT_YET = {}
 
 NA = {}
